@@ -717,13 +717,68 @@ class _Pass:
         self.err = None
 
 
+class World:
+    """Several lysosomes in one history: ONE virtual clock, and the `digesters` mapping of the CALLER - one dict object that the
+    history hands to every constructor (share) or a fresh copy of it for each.  The mapping covers the waste types `keys` (indices
+    into TYPES, never TOXIC); its values are functions of the caller that find the lysosome an item was ingested into and run the
+    scripted digester of that rig.  Every rig has an on_toxic callback of its own."""
+
+    def __init__(self, share, keys):
+        self.share = bool(share)
+        self.keys = sorted(keys)
+        self.rigs = []
+        self.mapping = None       # the shared dict
+        self.mappings = []        # every dict the caller passed as digesters=
+        self.foreign = []         # (receiving lysosome, owning lysosome | None, ingest event there) on_toxic calls that handed a
+                                  # callback an item of ANOTHER lysosome
+
+    def owner_of(self, w):
+        r = getattr(w, "_hrig", None)
+        if r is not None:
+            return r
+        c = getattr(w, "content", None)
+        for rig in self.rigs:
+            if id(c) in rig.by_content or (isinstance(c, dict) and id(c.get("context")) in rig.by_content):
+                return rig
+        return None
+
+    def mapping_for(self, rig):
+        def fresh():
+            def caller_dg(waste):
+                owner = self.owner_of(waste)
+                if owner is None:
+                    raise RuntimeError("boom -1")
+                return owner.dg(waste, 2)
+            return {rig.wt[k]: caller_dg for k in self.keys}
+        if self.share:
+            if self.mapping is None:
+                self.mapping = fresh()
+                self.mappings.append(self.mapping)
+            return self.mapping
+        m = fresh()
+        self.mappings.append(m)
+        return m
+
+    def map_keys(self, wt):
+        """type indices of the keys of the caller's mapping(s) now (of the first one that is no longer what the caller wrote)"""
+        def keys_of(m):
+            return sorted(wt.index(k) if k in wt else 99 for k in m)
+        ks = [keys_of(m) for m in self.mappings]
+        for k in ks:
+            if k != self.keys:
+                return k
+        return list(self.keys)
+
+
 class Rig:
     """One Lysosome on a virtual clock with scripted digesters and an on_toxic log."""
 
-    def __init__(self, cfg):
+    def __init__(self, cfg, world=None):
         import operon_ai.organelles.lysosome as L
         self.L = L
         self.cfg = cfg
+        self.world = world
+        self.index = len(world.rigs) if world is not None else 0
         self.dd = bool(cfg.get("dd"))           # the DEFAULT digesters of lysosome.py (digesters=None), on crafted contents
         self.loud = bool(cfg.get("loud"))       # silent=False: every print path runs (stdout is captured by the caller)
         self.daemon = None                      # AutophagyDaemon flushing into this lysosome (built on first use)
@@ -750,13 +805,17 @@ class Rig:
 
             _STANDINS.update(key=key, clock=clock, VDatetime=VDatetime, VWaste=VWaste, L=L)
         self.clock = _STANDINS["clock"]
-        self.clock.t = 0
         VDatetime, VWaste = _STANDINS["VDatetime"], _STANDINS["VWaste"]
-
-        self.saved = (L.datetime, L.Waste)
-        self.RealWaste = L.Waste
-        L.datetime = VDatetime
-        L.Waste = VWaste
+        if world is not None and world.rigs:
+            # a further lysosome of a world: the module is already on the virtual clock, which keeps running
+            self.saved = None
+            self.RealWaste = world.rigs[0].RealWaste
+        else:
+            self.clock.t = 0
+            self.saved = (L.datetime, L.Waste)
+            self.RealWaste = L.Waste
+            L.datetime = VDatetime
+            L.Waste = VWaste
         self.VDatetime = VDatetime
         self.outs = {}          # id -> None (raises) | list of keys
         self.types = {}         # id -> type index
@@ -785,7 +844,7 @@ class Rig:
         self.call_ops = []          # (id, raised, kind of the call of the history the digester ran in | None)   multi-thread runs
         self.hook = None            # called with the item id at every digester / on_toxic call (scheduled runs: Lin.dg)
 
-        def dg(waste):
+        def dg(waste, up=1):
             self.maybe_park()
             i = self.event_of_call(waste)
             if self.hook:
@@ -795,11 +854,19 @@ class Rig:
             self.call_ops.append((i, out is None, getattr(self.tls, "op", None)))
             if out is None:
                 raise RuntimeError(f"boom {i}")
-            if sys._getframe(1).f_code.co_name == "digest":
+            if sys._getframe(up).f_code.co_name == "digest":
                 self.recycle_expected.append((i, list(out)))
             return {f"k{k}": i for k in out}
+        self.dg = dg
 
         def on_toxic(waste):
+            if self.world is not None:
+                owner = self.world.owner_of(waste)
+                if owner is not self:
+                    # the callback of THIS lysosome is handed an item that was ingested into another one
+                    self.world.foreign.append((self.index, None if owner is None else owner.index,
+                                               -1 if owner is None else owner.peek_event(waste)))
+                    return
             self.maybe_park()
             i = self.event_of_call(waste)
             if self.hook:
@@ -833,8 +900,11 @@ class Rig:
 
         self.lys = L.Lysosome(max_queue_size=cfg["max"], auto_digest_threshold=cfg["thr"],
                               retention_hours=float(cfg["ret"]),
-                              digesters=None if self.dd else {t: dg for t in self.wt[:4]},
+                              digesters=(world.mapping_for(self) if world is not None else
+                                         None if self.dd else {t: dg for t in self.wt[:4]}),
                               on_toxic=on_toxic if cfg["cb"] else None, silent=not self.loud)
+        if world is not None:
+            world.rigs.append(self)
         if self.dd:
             for t in self.wt[:4]:
                 self.lys._digesters[t] = watch(self.lys._digesters[t])
@@ -849,7 +919,8 @@ class Rig:
             if ps.thread is not None:
                 ps.thread.join(0.5)
         kill_threads([ps.thread for ps in self.passes.values()], 0.3)
-        self.L.datetime, self.L.Waste = self.saved
+        if self.saved is not None:
+            self.L.datetime, self.L.Waste = self.saved
         if self.saved_ad is not None:
             self.AD.Waste = self.saved_ad
 
@@ -974,6 +1045,14 @@ class Rig:
         self.inop[id(w)] = self.inop.get(id(w), 0) + 1
         return ev[k] if k < len(ev) else ev[-1]
 
+    def peek_event(self, w):
+        """as event_of_call, without counting the call"""
+        ev = self.events_of(w)
+        if not ev:
+            return -1
+        k = self.departed.get(id(w), 0) + self.inop.get(id(w), 0)
+        return ev[k] if k < len(ev) else ev[-1]
+
     def begin_op(self):
         self.inop = {}
 
@@ -1000,6 +1079,7 @@ class Rig:
             w = self.RealWaste(waste_type=self.wt[o[1]], content=content, source="h",
                                created_at=self.VDatetime.now() + o[2] * HOUR)
             w._hev = [i]
+            w._hrig = self
             self.objs[i] = w
             return lambda: lys.ingest(w)
         if o[0] == "twin":          # a distinct Waste object that is == the one of event o[1] (own digester outcome)
@@ -1007,6 +1087,7 @@ class Rig:
             self.outs[i], self.types[i] = o[2], self.types[o[1]]
             w = copy.copy(src)
             w._hev = [i]
+            w._hrig = self
             assert w == src and w is not src
             self.objs[i] = w
             return lambda: lys.ingest(w)
@@ -1063,6 +1144,133 @@ class Rig:
             idx = len(ev) - occ[id(w)] + k
             out.append(ev[idx] if 0 <= idx < len(ev) else -1)
         return out
+
+
+class Drive:
+    """The calls of ONE history on ONE lysosome, made one at a time: step(idx, o) makes the call and returns the observation
+    row (what the call returned, get_statistics / get_queue_status, the queue, the recycling bin, the on_toxic log); steps =
+    what the monitor needs about every call.  A call that does not return sets `stopped` (the trace of the run so far)."""
+
+    def __init__(self, chk, rig, cfg):
+        self.chk, self.rig, self.cfg = chk, rig, cfg
+        lys = rig.lys
+        rp = lys.retention_period
+        self.row0 = [lys.max_queue_size, lys.auto_digest_threshold,
+                     rp // HOUR if rp % HOUR == _dt.timedelta(0) else -12345, int(lys.on_toxic is not None)]
+        self.steps = []
+        self.nid = 0
+        self.cum_rep = self.cum_silent = self.cum_exp = 0
+        self.open_labels = set()
+        self.stopped = None
+
+    def trace(self):
+        rig = self.rig
+        return {"steps": self.steps, "types": dict(rig.types), "toxlog": list(rig.toxlog),
+                "printed": len(rig.buf.getvalue())}
+
+    def step(self, idx, o):
+        chk, rig, steps, open_labels = self.chk, self.rig, self.steps, self.open_labels
+        lys, nid = rig.lys, self.nid
+        before = rig.queue_ids()
+        ncalls = len(rig.calls)
+        rig.begin_op()
+        paused, bad = False, False
+        if o[0] == "adv":
+            rig.clock.t += o[1]
+            ret, row = None, [0]
+        elif o[0] == "setthr":
+            lys.auto_digest_threshold = o[1]      # a plain public attribute, reassigned between two calls
+            ret, row = None, [0]
+        elif is_pass(o) and ((o[0] == "pbegin") == (o[1] in open_labels)):
+            ret, row, bad = None, [-5], True        # label in use / no such pass: not a call
+        else:
+            try:
+                if o[0] == "pbegin":
+                    st = rig.pass_begin(o[1], o[2], chk._timeout())
+                elif o[0] == "pstep":
+                    st = rig.pass_step(o[1], chk._timeout())
+                else:
+                    st = None
+                    opt, box = _spawn(rig.do(o, nid))
+                    rig.spawned.append(opt)
+                    opt.join(chk._timeout())
+                    if opt.is_alive():
+                        raise common.Hang()
+                    if "e" in box:
+                        raise box["e"]
+                    ret = box.get("r")
+            except common.Hang:
+                # with another thread parked inside a digester a call may legitimately WAIT for it (a digester is
+                # assumed to return): let everything run; a hang is what is still stuck after that
+                stuck = True
+                if open_labels:
+                    stuck = not rig.settle(chk._timeout())
+                    if not is_pass(o):
+                        opt.join(chk._timeout())
+                        stuck = stuck or opt.is_alive()
+                chk.hangs_seen += 1 if stuck else 0
+                chk.waits_seen += 0 if stuck else 1
+                # what the call that does not return is doing: executing (a loop that never ends) or blocked
+                culprit = (rig.passes[o[1]].thread if is_pass(o) and o[1] in rig.passes else None) if is_pass(o) else opt
+                loc, moved = where_is(culprit) if stuck else (None, False)
+                steps.append({"op": o, "hang": stuck, "waited": not stuck, "before": before,
+                              "parked": sorted(open_labels), "at": loc, "spinning": moved})
+                self.stopped = {"steps": steps, "hang": stuck, "at": idx}
+                return [-999] if stuck else [-997]
+            if st is not None:
+                ps = rig.passes[o[1]]
+                if st == "parked":
+                    open_labels.add(o[1])
+                    paused, ret = True, None
+                else:
+                    open_labels.discard(o[1])
+                    if ps.err is not None:
+                        raise ps.err
+                    ret = ps.ret
+            if paused:
+                row = [3]
+            elif is_ingest(o) or o[0] in ("prune", "peek", "clear"):
+                row = [0] if ret is None else [-7]
+            elif o[0] in ("digest", "pbegin", "pstep"):
+                rec = pairs(ret.recycled)
+                eids = err_ids(ret.errors)
+                row = [1, int(ret.success is True), ret.disposed, len(ret.errors)] + eids + [len(rec)] + [x for p in rec for x in p]
+                self.cum_rep += len(ret.errors)
+            else:
+                row = [2, ret]
+                self.cum_exp += ret
+        calls = rig.calls[ncalls:]
+        if is_ingest(o):
+            self.cum_silent += sum(1 for c in calls if c[2])
+        st = lys.get_statistics()
+        qs = lys.get_queue_status()
+        after = rig.queue_ids()
+        pool = before + ([nid] if is_ingest(o) else [])
+        rig.end_op([x for x in pool if x not in after])
+        binraw = lys.get_recycled()
+        b = pairs(binraw)
+        row += [st["queue_size"], st["total_ingested"], st["total_digested"], st["total_recycled"]]
+        row += [st["by_type"].get(t, -1) for t in TVAL] + [st["recycling_bin_size"]]
+        row += [qs["size"], qs["capacity"]] + [qs["by_type"].get(t, 0) for t in TVAL]
+        row += [len(after)] + [(-1 if i is None else i) for i in after]
+        row += [len(b)] + [x for p in b for x in p]
+        row += [len(rig.toxlog)] + list(rig.toxlog)
+        row += [self.cum_rep, self.cum_silent, self.cum_exp]
+        steps.append({"op": o, "new": nid if is_ingest(o) else None, "before": before, "after": after,
+                      "calls": calls, "paused": paused, "bad": bad, "open": sorted(open_labels),
+                      "ret": (None if ret is None else
+                              (ret if isinstance(ret, int) else repr(ret) if not hasattr(ret, "disposed") else
+                               {"disposed": ret.disposed, "nerr": len(ret.errors),
+                                "err_ids": err_ids(ret.errors),
+                                "success": ret.success,
+                                "recycled_refs": int_refs(ret.recycled),
+                                "recycled_secret": has_secret(ret.recycled)})),
+                      "stats": {k: st[k] for k in ("queue_size", "total_ingested", "total_digested", "total_recycled")},
+                      "qsize": qs["size"],
+                      "bin_refs": int_refs(binraw), "bin_secret": has_secret(binraw)})
+        if is_ingest(o):
+            self.nid += 1
+        return row
 
 
 def is_ingest(o):
@@ -1129,6 +1337,15 @@ class C13(Check):
             "the queue holds at most max_queue_size items, that no thread is left blocked or executing, and the final-state invariants. "
             "A call that does not return is diagnosed (still executing = a loop that does not end, or blocked; where) and its thread is ended, "
             "so that a busy loop cannot starve the rest of the run. "
+            "SEVERAL LYSOSOMES (every 8th generated history + an enumeration): 2-3 lysosomes built from the digesters mapping of the caller - ONE dict "
+            "object handed to every constructor (75%) or a copy for each; custom digesters for all four non-toxic waste types, for some, or "
+            "for none ({}) -, each with a configuration and an on_toxic callback of its own, built up front or in the middle of the history, "
+            "used in any order on one clock (new j | on j <call or threshold assignment> | clock advance); after EVERY step the row of the lysosome the "
+            "call was made on and, for the whole world, the keys of the caller's mapping and (queue length, total_digested, on_toxic calls) of every "
+            "lysosome are compared with the world model (Model.v Part 1e), and the monitor judges each lysosome on the calls made on it: its own "
+            "queue, counters, DigestResults, recycling bin and ITS OWN toxic callback (a callback handed an item of another lysosome is reported too). "
+            "Enumeration: two lysosomes from one mapping (the second built before / after the first call, threshold 1 on the second), every "
+            "history of depth <=2 (quick) / <=3 (thorough) over {ingest_sensitive with a returning / raising callback, ingest, digest} x {first, second}. "
             "Validation only: 2 real threads x 1..3 calls without the scheduler, random pre-fill (half of the runs: items whose digesters raise) and start "
             "offsets (300 quick / 4000 thorough runs), queue bound read at the return of every call. non-trivial = at least one item left the queue "
             "(scheduled runs: the threads' steps alternated at least once); distinct by case content")
@@ -1142,7 +1359,11 @@ class C13(Check):
                   "the sequential model is proved to be its special case): conservation with items in flight, every digestion error "
                   "listed in exactly one DigestResult exactly once, every DigestResult accounts for exactly the items its call took, "
                   "the toxic and queue-bound theorems again. Reconfigured histories (auto_digest_threshold reassigned between calls): the same "
-                  "theorems for every state such a history reaches. Threads: any number of threads, each with any list of calls, under any "
+                  "theorems for every state such a history reaches. Several lysosomes in one program (any number, built at any points of a "
+                  "history from the caller's digesters mapping, used in any order on one clock): every lysosome of every such world satisfies all "
+                  "of the above for its own queue, counters, results, bin and on_toxic log; it ends in exactly the state of the single-object history "
+                  "made of the calls addressed to it; a call on one leaves the others as they were; nothing writes the caller's mapping. "
+                  "Threads: any number of threads, each with any list of calls, under any "
                   "schedule, started after any history: every such run is an interleaved history (so the bound holds after every step - in "
                   "particular at the return of every call of every thread - and conservation, exactly-once reporting, the toxic statements hold "
                   "throughout), a thread with something left to do is never blocked and every step strictly decreases a work measure, so "
@@ -1178,6 +1399,10 @@ class C13(Check):
                "default digesters are replaced by scripted ones in 75-80% of the histories (their behaviour is covered by the oracle) and "
                "run as they are, observed through a wrapper installed after construction, in the rest: the outcome the model is given for "
                "an item is then what its crafted content makes the default digester do (harness/c13.py eff_out / dd_content)",
+               "several lysosomes: the caller's digesters mapping holds functions of the harness that find the lysosome an item was ingested "
+               "into (a mark on the Waste objects the harness builds; the identity of the payload for ingest_sensitive / ingest_error) and run "
+               "that lysosome's scripted digester; the model keeps the mapping as a ghost list of keys that no step writes, and the harness reads "
+               "the keys of the real dict(s) after every step; the lysosomes of one history share the virtual clock",
                "AutophagyDaemon.check_and_prune is driven with min_tokens_for_pruning=10, a HistoneStore and create_simple_summarizer(4); its "
                "module-level Waste binding is put on the virtual clock like lysosome.Waste; whether it prunes is decided by the mode the "
                "case names and checked against its PruneResult",
@@ -1204,6 +1429,9 @@ class C13(Check):
                    "their own calls; a critical section that has begun and not ended has not taken effect yet)",
                    "auto_digest_threshold may be reassigned between calls; max_queue_size is fixed after construction (lowering it below the current "
                    "queue length would break the bound by itself)",
+                   "'the toxic callback' of an item is the on_toxic of the lysosome it was ingested into: with several lysosomes in one program "
+                   "each is judged on its own callback (an item digested by lysosome B that only reaches the callback of lysosome A has reached ITS "
+                   "callback 0 times); the caller may hand the same `digesters` dict to any number of constructors",
                    "'reach the toxic callback exactly once': at most once ever, exactly once when digested or emergency-processed "
                    "with on_toxic set; items expired by autophagy never reach it (DESIGN.md section 6, Reading)"]
 
@@ -1472,12 +1700,75 @@ class C13(Check):
             prefix.append(cur)
         return {"sched": {"program": tc, "schedule": prefix}}
 
+    def _rand_world_case(self, rng, maxlen):
+        """a history over 2-3 lysosomes built from the digesters mapping of the caller - ONE dict object handed to every constructor
+        (75%) or a fresh copy for each -, covering all four non-toxic waste types or only some (or none: {}); the lysosomes have
+        configurations and on_toxic callbacks of their own, are built up front or in the middle of the history, and are used in any
+        order on one clock; the waste types the mapping does not cover are not ingested (the sensitive kind always is)."""
+        n = rng.choice([2, 2, 2, 3])
+        share = rng.random() < 0.75
+        keys = rng.choice([[0, 1, 2, 3]] * 4 + [[2], [0, 1], [1, 2, 3], []])
+        cfgs, heavy = [], []
+        for _ in range(n):
+            h = rng.random() < 0.4
+            cfg = self._rand_cfg(rng, h)
+            cfg.update(dd=False, loud=False, cb=rng.random() < 0.9)
+            cfgs.append(cfg)
+            heavy.append(h)
+        ops, built, slots, ncalls = [["new", 0]], 1, [0] * n, 0
+        upfront = rng.random() < 0.5
+        total = rng.randint(2 * n + 2, maxlen)
+        while ncalls < total or built < n:
+            k = rng.random()
+            if built < n and (upfront or k < 0.2 or ncalls >= total):
+                ops.append(["new", built])
+                built += 1
+                continue
+            if k < 0.27:
+                ops.append(["adv", rng.choice([1, 1, 2, 3])])
+                continue
+            j = rng.randrange(built)
+            o = self._rand_op(rng, slots[j], heavy[j])
+            if o[0] in ("adv", "prune"):
+                o = ["digest", rng.choice([None, None, 1, 2])]
+            if is_ingest(o) and rng.random() < 0.25:
+                o = ["isens", self._rand_out(rng, slots[j])]
+            if o[0] == "ierr" and 2 not in keys:
+                o = ["isens", o[1]]
+            if o[0] == "ingest" and o[1] != TOXIC and o[1] not in keys:
+                o = ["ingest", rng.choice(keys) if keys and rng.random() < 0.6 else TOXIC, o[2], o[3]]
+            ops.append(["on", j, o])
+            slots[j] += 1 if is_ingest(o) else 0
+            ncalls += 1
+        return {"world": {"share": share, "keys": keys, "cfgs": cfgs, "ops": ops}}
+
+    WORLD_ALPHABET = [["isens", []], ["isens", None], ["ingest", 0, 0, [0]], ["digest", None]]
+
+    def _exhaustive_worlds(self):
+        """two lysosomes built from ONE digesters mapping - the second one before or after the first call -: every history of depth
+        <=2 (quick) / <=3 (thorough) over {ingest_sensitive (callback returns / raises), ingest, digest} x {first, second}; the
+        second lysosome has threshold 1 (every ingest digests, so its on_toxic runs inside ingest)"""
+        cfgs = [{"max": 2, "thr": 9, "ret": 2, "cb": True}, {"max": 3, "thr": 1, "ret": 2, "cb": True}]
+        letters = [["on", j, o] for j in (0, 1) for o in self.WORLD_ALPHABET]
+        out = []
+        for d in range(1, (2 if self.tier == "quick" else 3) + 1):
+            for combo in itertools.product(letters, repeat=d):
+                hist = [list(e) for e in combo]
+                out.append({"world": {"share": True, "keys": [0, 1, 2, 3], "cfgs": cfgs,
+                                      "ops": [["new", 0], ["new", 1]] + hist}})
+                if hist[0][1] == 0 and any(e[1] == 1 for e in hist):
+                    out.append({"world": {"share": True, "keys": [0, 1, 2, 3], "cfgs": cfgs,
+                                          "ops": [["new", 0], hist[0], ["new", 1]] + hist[1:]}})
+        return out
+
     def gen_cases(self, rng, n):
         out = []
         for j in range(n):
             maxlen = 14 if (self.tier == "quick" or j % 4) else 30
             if j % 8 == 7:
                 out.append(self._rand_sched_case(rng))
+            elif j % 8 == 2:
+                out.append(self._rand_world_case(rng, min(maxlen, 16)))
             elif j % 4 == 1:
                 out.append(self._rand_twin_case(rng, maxlen))
             elif j % 4 == 3:
@@ -1501,7 +1792,7 @@ class C13(Check):
             for d in range(1, depth + 1 - (1 if n == 2 else 0)):
                 for combo in itertools.product(alpha, repeat=d):
                     out.append({"cfg": cfg, "ops": [list(o) for o in combo]})
-        return out + self._exhaustive_overlaps() + self._exhaustive_wide() + self._explored_sched_cases()
+        return out + self._exhaustive_overlaps() + self._exhaustive_wide() + self._exhaustive_worlds() + self._explored_sched_cases()
 
     WIDE_ALPHABET = [["ingest", 0, 0, [0, 1]], ["ierr", [0]], ["prune", [], "force"], ["clear"], ["setthr", 1], ["digest", None],
                      ["peek", 0], ["ingest", 3, 0, None]]
@@ -1572,6 +1863,8 @@ class C13(Check):
         return 2.0 if n < 3 else (0.4 if n < 10 else 0.15)
 
     def run_impl(self, case):
+        if "world" in case:
+            return self.run_world(case)
         cfg, ops = case["cfg"], case["ops"]
         if any(is_pass(o) for o in ops) and not cfg["cb"]:
             raise ValueError("overlapping passes need on_toxic set (a sensitive item would have no point to park at)")
@@ -1584,117 +1877,81 @@ class C13(Check):
             rig.close()
 
     def _drive(self, rig, cfg, ops):
-        lys = rig.lys
-        rp = lys.retention_period
-        row0 = [lys.max_queue_size, lys.auto_digest_threshold,
-                rp // HOUR if rp % HOUR == _dt.timedelta(0) else -12345, int(lys.on_toxic is not None)]
-        obs, steps = [row0], []
-        nid = 0
-        cum_rep = cum_silent = cum_exp = 0
-        open_labels = set()
+        d = Drive(self, rig, cfg)
+        obs = [d.row0]
         for idx, o in enumerate(ops):
-            before = rig.queue_ids()
-            ncalls = len(rig.calls)
-            rig.begin_op()
-            paused, bad = False, False
-            if o[0] == "adv":
-                rig.clock.t += o[1]
-                ret, row = None, [0]
-            elif o[0] == "setthr":
-                lys.auto_digest_threshold = o[1]      # a plain public attribute, reassigned between two calls
-                ret, row = None, [0]
-            elif is_pass(o) and ((o[0] == "pbegin") == (o[1] in open_labels)):
-                ret, row, bad = None, [-5], True        # label in use / no such pass: not a call
-            else:
-                try:
-                    if o[0] == "pbegin":
-                        st = rig.pass_begin(o[1], o[2], self._timeout())
-                    elif o[0] == "pstep":
-                        st = rig.pass_step(o[1], self._timeout())
+            obs.append(d.step(idx, o))
+            if d.stopped is not None:
+                return obs, d.stopped
+        return obs, d.trace()
+
+    # -- several lysosomes -------------------------------------------------
+    @staticmethod
+    def world_objects(wd):
+        """per object of a world case: the calls addressed to it, in order"""
+        out = [[] for _ in wd["cfgs"]]
+        for e in wd["ops"]:
+            if e[0] == "on" and 0 <= e[1] < len(out):
+                out[e[1]].append(e[2])
+        return out
+
+    def run_world(self, case):
+        """a history over several lysosomes built from the caller's digesters mapping: ["new", j] builds the j-th (cfgs[j]),
+        ["on", j, op] makes a call on it, ["adv", d] moves the clock (there is one).  One observation row per step: what the step
+        returned and the state of the lysosome it was made on, then - about the whole world - the keys of the caller's mapping and
+        (queue length, total_digested, on_toxic calls) of EVERY lysosome."""
+        wd = case["world"]
+        world = World(wd["share"], wd["keys"])
+        drives, rigs = [], []
+        obs = [[0, 0, 0, 0]]
+        stopped = None
+
+        def tail():
+            wt = rigs[0].wt if rigs else []
+            t = world.map_keys(wt) if rigs else list(world.keys)
+            out = [len(t)] + t + [len(rigs)]
+            for r in rigs:
+                out += [len(getattr(r.lys, "_queue", [])), getattr(r.lys, "_total_digested", -1), len(r.toxlog)]
+            return out + [len(world.foreign)]
+        try:
+            for idx, e in enumerate(wd["ops"]):
+                if e[0] == "new":
+                    if e[1] != len(rigs):
+                        raise ValueError("objects are built in index order")
+                    cfg = wd["cfgs"][e[1]]
+                    if cfg.get("dd") or cfg.get("loud"):
+                        raise ValueError("worlds use the caller's scripted digesters and silent lysosomes")
+                    rig = Rig(cfg, world=world)
+                    rigs.append(rig)
+                    rig.quiet()
+                    drives.append(Drive(self, rig, cfg))
+                    row = [9] + drives[-1].row0
+                elif e[0] == "adv":
+                    _STANDINS["clock"].t += e[1]
+                    row = [8, e[1]]
+                elif e[0] == "on":
+                    j, o = e[1], e[2]
+                    if o[0] in ("adv", "prune", "twin", "again"):
+                        raise ValueError(f"not a call of a world history: {o}")
+                    if not 0 <= j < len(drives):
+                        row = [-5]
                     else:
-                        st = None
-                        opt, box = _spawn(rig.do(o, nid))
-                        rig.spawned.append(opt)
-                        opt.join(self._timeout())
-                        if opt.is_alive():
-                            raise common.Hang()
-                        if "e" in box:
-                            raise box["e"]
-                        ret = box.get("r")
-                except common.Hang:
-                    # with another thread parked inside a digester a call may legitimately WAIT for it (a digester is
-                    # assumed to return): let everything run; a hang is what is still stuck after that
-                    stuck = True
-                    if open_labels:
-                        stuck = not rig.settle(self._timeout())
-                        if not is_pass(o):
-                            opt.join(self._timeout())
-                            stuck = stuck or opt.is_alive()
-                    self.hangs_seen += 1 if stuck else 0
-                    self.waits_seen += 0 if stuck else 1
-                    obs.append([-999] if stuck else [-997])
-                    # what the call that does not return is doing: executing (a loop that never ends) or blocked
-                    culprit = (rig.passes[o[1]].thread if is_pass(o) and o[1] in rig.passes else None) if is_pass(o) else opt
-                    loc, moved = where_is(culprit) if stuck else (None, False)
-                    steps.append({"op": o, "hang": stuck, "waited": not stuck, "before": before,
-                                  "parked": sorted(open_labels), "at": loc, "spinning": moved})
-                    return obs, {"steps": steps, "hang": stuck, "at": idx}
-                if st is not None:
-                    ps = rig.passes[o[1]]
-                    if st == "parked":
-                        open_labels.add(o[1])
-                        paused, ret = True, None
-                    else:
-                        open_labels.discard(o[1])
-                        if ps.err is not None:
-                            raise ps.err
-                        ret = ps.ret
-                if paused:
-                    row = [3]
-                elif is_ingest(o) or o[0] in ("prune", "peek", "clear"):
-                    row = [0] if ret is None else [-7]
-                elif o[0] in ("digest", "pbegin", "pstep"):
-                    rec = pairs(ret.recycled)
-                    eids = err_ids(ret.errors)
-                    row = [1, int(ret.success is True), ret.disposed, len(ret.errors)] + eids + [len(rec)] + [x for p in rec for x in p]
-                    cum_rep += len(ret.errors)
+                        row = [j] + drives[j].step(idx, o)
+                        if drives[j].stopped is not None:
+                            stopped = (j, drives[j].stopped)
                 else:
-                    row = [2, ret]
-                    cum_exp += ret
-            calls = rig.calls[ncalls:]
-            if is_ingest(o):
-                cum_silent += sum(1 for c in calls if c[2])
-            st = lys.get_statistics()
-            qs = lys.get_queue_status()
-            after = rig.queue_ids()
-            pool = before + ([nid] if is_ingest(o) else [])
-            rig.end_op([x for x in pool if x not in after])
-            binraw = lys.get_recycled()
-            b = pairs(binraw)
-            row += [st["queue_size"], st["total_ingested"], st["total_digested"], st["total_recycled"]]
-            row += [st["by_type"].get(t, -1) for t in TVAL] + [st["recycling_bin_size"]]
-            row += [qs["size"], qs["capacity"]] + [qs["by_type"].get(t, 0) for t in TVAL]
-            row += [len(after)] + [(-1 if i is None else i) for i in after]
-            row += [len(b)] + [x for p in b for x in p]
-            row += [len(rig.toxlog)] + list(rig.toxlog)
-            row += [cum_rep, cum_silent, cum_exp]
-            obs.append(row)
-            steps.append({"op": o, "new": nid if is_ingest(o) else None, "before": before, "after": after,
-                          "calls": calls, "paused": paused, "bad": bad, "open": sorted(open_labels),
-                          "ret": (None if ret is None else
-                                  (ret if isinstance(ret, int) else repr(ret) if not hasattr(ret, "disposed") else
-                                   {"disposed": ret.disposed, "nerr": len(ret.errors),
-                                    "err_ids": err_ids(ret.errors),
-                                    "success": ret.success,
-                                    "recycled_refs": int_refs(ret.recycled),
-                                    "recycled_secret": has_secret(ret.recycled)})),
-                          "stats": {k: st[k] for k in ("queue_size", "total_ingested", "total_digested", "total_recycled")},
-                          "qsize": qs["size"],
-                          "bin_refs": int_refs(binraw), "bin_secret": has_secret(binraw)})
-            if is_ingest(o):
-                nid += 1
-        return obs, {"steps": steps, "types": dict(rig.types), "toxlog": list(rig.toxlog),
-                     "printed": len(rig.buf.getvalue())}
+                    raise ValueError(e)
+                obs.append(row + tail())
+                if stopped is not None:
+                    break
+            traces = [d.trace() for d in drives]
+            if stopped is not None:
+                traces[stopped[0]] = stopped[1]
+            return obs, {"world": True, "objs": traces, "foreign": list(world.foreign),
+                         "map_keys": world.map_keys(rigs[0].wt) if rigs else list(world.keys)}
+        finally:
+            for rig in reversed(rigs):
+                rig.close()
 
     # -- model input -------------------------------------------------------
     @staticmethod
@@ -1719,9 +1976,41 @@ class C13(Check):
             return "Autophagy"
         raise ValueError(f"not a call a scheduler thread makes: {o}")
 
+    def _rop_term(self, cfg, o, slot):
+        """the `rop` of the model for one call / assignment of a history on one lysosome"""
+        if o[0] == "setthr":
+            return f"SetThr {cz(o[1])}"
+        if o[0] == "pbegin":
+            return f"ROp (PassBegin {cz(o[1])} {copt(o[2])})"
+        if o[0] == "pstep":
+            return f"ROp (PassStep {cz(o[1])})"
+        if o[0] == "clear":
+            return "ROp (Atomic ClearBin)"
+        return f"ROp (Atomic ({self._op_term(cfg, o, slot)}))"
+
     def coq_case(self, case):
         if "two_threads" in case:          # replay of a finding of the random real-thread runs: nothing for the model to run
-            return "(mkConfig 0 0 0 false, [], [], [])"
+            return "(mkConfig 0 0 0 false, [], [], [], ([], []))"
+        if "world" in case:
+            wd = case["world"]
+            slots = [0] * len(wd["cfgs"])
+            built = 0
+            wops = []
+            for e in wd["ops"]:
+                if e[0] == "new":
+                    c = wd["cfgs"][e[1]]
+                    built += 1
+                    wops.append(f"WNew (mkConfig {cz(c['max'])} {cz(c['thr'])} {cz(c['ret'])} {cbool(c['cb'])})")
+                elif e[0] == "adv":
+                    wops.append(f"WAdv {cz(e[1])}")
+                else:
+                    j, o = e[1], e[2]
+                    if 0 <= j < built:
+                        wops.append(f"WOn {j} ({self._rop_term(wd['cfgs'][j], o, slots[j])})")
+                        slots[j] += 1 if is_ingest(o) else 0
+                    else:
+                        wops.append(f"WOn {max(j, 0)} (SetThr 0)")      # no such lysosome (yet): not a call, whatever it is
+            return f"(mkConfig 0 0 0 false, [], [], [], ({czl(wd['keys'])}, {clist(wops)}))"
         if "sched" in case:
             # real threads under the deterministic scheduler: the programs, and the order in which their steps took effect
             tc = case["sched"]["program"]
@@ -1740,7 +2029,7 @@ class C13(Check):
                     slot += 1
                 progs.append(clist(row))
             return (f"(mkConfig {cz(cfg['max'])} {cz(cfg['thr'])} {cz(cfg['ret'])} {cbool(cfg['cb'])}, {clist(pre)}, "
-                    f"{clist(progs)}, {czl(case.get('_lin', []))})")
+                    f"{clist(progs)}, {czl(case.get('_lin', []))}, ([], []))")
         cfg = case["cfg"]
         ops = []
         t = 0
@@ -1792,7 +2081,7 @@ class C13(Check):
             else:
                 atomic(f"Advance {cz(o[1])}")
                 t += o[1]
-        return f"(mkConfig {cz(cfg['max'])} {cz(cfg['thr'])} {cz(cfg['ret'])} {cbool(cfg['cb'])}, {clist(ops)}, [], [])"
+        return f"(mkConfig {cz(cfg['max'])} {cz(cfg['thr'])} {cz(cfg['ret'])} {cbool(cfg['cb'])}, {clist(ops)}, [], [], ([], []))"
 
     # -- the property, on the implementation's trace ------------------------
     def monitor(self, case, obs, trace):
@@ -1802,6 +2091,29 @@ class C13(Check):
             return trace.get("v")
         if trace.get("harness_error"):
             return Violation("C13/raises", f"a call raised: {trace['harness_error']}")
+        if "world" in case:
+            return self._monitor_world(case, trace)
+        return self._monitor_one(case, trace)
+
+    def _monitor_world(self, case, trace):
+        """several lysosomes: the property, for EACH of them - its own queue, counters, DigestResults, recycling bin and its own
+        toxic callback - on the calls that were made on it"""
+        wd = case["world"]
+        per = self.world_objects(wd)
+        n = len(trace.get("objs", []))
+        how = (f"{n} lysosomes built from ONE digesters mapping (the same dict passed to every constructor, custom digesters for "
+               f"waste types {[TVAL[k] for k in wd['keys']]})" if wd["share"] else
+               f"{n} lysosomes, each built from its own copy of the digesters mapping (waste types {[TVAL[k] for k in wd['keys']]})")
+        for j, tr in enumerate(trace.get("objs", [])):
+            v = self._monitor_one({"cfg": wd["cfgs"][j], "ops": per[j]}, tr)
+            if v is not None:
+                return Violation(v.signature, f"lysosome #{j} of {how}; world history {wd['ops']}; on lysosome #{j}: {v.what}")
+        for (recv, owner, ev) in trace.get("foreign", []):
+            return Violation("C13/toxic-callback", f"{how}; world history {wd['ops']}: the on_toxic callback of lysosome #{recv} was handed "
+                                                   f"sensitive item {ev} of lysosome #{owner} (an item that was never ingested into #{recv})")
+        return None
+
+    def _monitor_one(self, case, trace):
         cfg = case["cfg"]
         steps = trace.get("steps", [])
         if trace.get("hang") and not steps:
@@ -1964,10 +2276,38 @@ class C13(Check):
     def nontrivial(self, case, obs, trace):
         if "sched" in case:
             return isinstance(trace, dict) and trace.get("switches", 0) > 0
+        if "world" in case:
+            # at least two lysosomes of the world had an item leave their queue
+            return isinstance(trace, dict) and sum(
+                1 for tr in trace.get("objs", [])
+                if any(len(s.get("after", [])) < len(s.get("before", [])) + (1 if s.get("new") is not None else 0)
+                       for s in tr.get("steps", []))) >= 2
         return isinstance(trace, dict) and any(len(s.get("after", [])) < len(s.get("before", [])) + (1 if s.get("new") is not None else 0)
                                                for s in trace.get("steps", []))
 
     def classify(self, case, obs, trace):
+        if "world" in case:
+            wd = case["world"]
+            ks = [f"world:lysosomes={len(wd['cfgs'])}", "world:one-shared-digesters-mapping" if wd["share"] else "world:a-mapping-each",
+                  "world:mapping-keys=" + "".join(str(k) for k in wd["keys"])]
+            seen_on = False
+            for e in wd["ops"]:
+                if e[0] == "on":
+                    seen_on = True
+                elif e[0] == "new" and seen_on:
+                    ks.append("world:built-after-calls-on-others")
+                elif e[0] == "adv":
+                    ks.append("world:clock")
+            if isinstance(trace, dict):
+                for j, tr in enumerate(trace.get("objs", [])):
+                    for s in tr.get("steps", []):
+                        if s.get("hang"):
+                            ks.append("hang")
+                        elif any(c[1] == "cb" for c in s.get("calls", [])):
+                            ks.append("world:on_toxic-of-first" if j == 0 else "world:on_toxic-of-a-later-one")
+                            if is_ingest(s["op"]):
+                                ks.append("world:on_toxic-inside-ingest")
+            return ks
         if "sched" in case or "two_threads" in case:
             tc = case["sched"]["program"] if "sched" in case else case["two_threads"]
             cfg = tc["cfg"]
@@ -2039,6 +2379,24 @@ class C13(Check):
     def shrink(self, case, pred):
         if "two_threads" in case or "sched" in case:
             return case
+        if "world" in case:
+            # drop calls and clock moves one at a time (the constructions stay)
+            wd = case["world"]
+            ops, rounds, changed = [list(e) for e in wd["ops"]], 0, True
+            while changed and rounds < 80:
+                changed = False
+                for r in range(len(ops)):
+                    if ops[r][0] == "new":
+                        continue
+                    cand = ops[:r] + ops[r + 1:]
+                    rounds += 1
+                    try:
+                        if pred({"world": {**wd, "ops": cand}}):
+                            ops, changed = cand, True
+                            break
+                    except Exception:
+                        pass
+            return {"world": {**wd, "ops": ops}}
         ops = [list(o) for o in case["ops"]]
 
         def drop(ops, r):
